@@ -242,7 +242,12 @@ class Tree(DictSWC):
 
             return branches, [node.id]
 
-        branches, _ = self.traverse(leave=collect_branches)
+        branches, child = self.traverse(leave=collect_branches)
+        if len(child) > 1:  # the root is not a furcation: close the branch it starts
+            child.reverse()
+            branches.append(Tree.Branch(self, np.array(child, dtype=np.int32)))
+            branches.reverse()
+
         return branches
 
     def get_paths(self) -> list[Path]:
